@@ -346,9 +346,12 @@ def run_fs(desc):
                 outs.add(''.join(u))
             return sorted(outs)
         dot_names = ['.', '..', '...', '..a', '.a', 'a', 'a.', '.a.', 'a/..', 'a/.', 'a/..a', './..', '../.', 'a/...', '.d', 'd/.e', '....', 'a..']
-        for base_t in ('..*', '.*', '..?', '.?', '.*.', '*..', '..[!a]', 'a/..*', 'a/.*', '*/..*', '..*/.', '.*/..*', '.[.]*', '..*a', '*.', '.**'):
+        for base_t in ('..*', '.*', '..?', '.?', '.*.', '*..', '..[!a]', 'a/..*', 'a/.*', '*/..*', '..*/.', '.*/..*', '.[.]*', '..*a', '*.', '.**',
+                       # the same inside extended groups (alternatives that start with a written dot followed by a wildcard)
+                       '@(.*)', '@(a|.*)', '@(.?)', 'a/@(.*)', '@(.*|b)', '?(.*)', '@(.[.])', '*(.*)', '@(.*)a', '@(.*).'):
             sp = spellings(base_t)
-            for fl in (G.NODOTDIR, G.NODOTDIR | G.DOTGLOB, G.DOTGLOB, 0, G.NODOTDIR | G.GLOBSTAR, G.NODOTDIR | G.EXTGLOB):
+            grp = G.EXTGLOB if '(' in base_t else 0
+            for fl in (G.NODOTDIR | grp, G.NODOTDIR | G.DOTGLOB | grp, G.DOTGLOB | grp, grp, G.NODOTDIR | G.GLOBSTAR | grp, G.NODOTDIR | G.EXTGLOB):
                 answers = {}
                 for t in sp:
                     try:
@@ -374,13 +377,13 @@ def run_fs(desc):
             for t in sp:
                 try:
                     with util.ScandirCounter(4000):
-                        res = G.glob(t, flags=G.DOTGLOB, root_dir=root)
+                        res = G.glob(t, flags=G.DOTGLOB | grp, root_dir=root)
                 except Exception as e:
                     res = ['<%s>' % type(e).__name__]
                 out.evaluations += 1
                 special = [r_ for r_ in res if r_.rstrip('/').split('/')[-1] in ('.', '..') and not base_t.endswith('/.')]
                 if special:
-                    out.violation({'mode': 'dotspell', 'pattern': t, 'plain': base_t, 'flags': G.DOTGLOB, 'name': special[0], 'glob': True,
+                    out.violation({'mode': 'dotspell', 'pattern': t, 'plain': base_t, 'flags': G.DOTGLOB | grp, 'name': special[0], 'glob': True,
                                    'problem': 'glob() returns a special directory for a wildcard pattern although SCANDOTDIR is not set'},
                                   bucket=('dotspell-glob', base_t))
             out.nontrivial(('dotspell', base_t))
